@@ -217,7 +217,10 @@ TokText(tok, w) ==
     [] tok[1] = "neg" -> <<45>>
     [] tok[1] = "ws"  -> w
     [] OTHER -> StrCps(tok[1])
+\* (by halving, so that texts of thousands of tokens cost n log n rather than n^2 copies)
 RECURSIVE TextOf(_, _)
-TextOf(toks, w) == IF toks = <<>> THEN <<>> ELSE TokText(toks[1], w) \o TextOf(Tail(toks), w)
+TextOf(toks, w) == IF Len(toks) = 0 THEN <<>>
+                   ELSE IF Len(toks) = 1 THEN TokText(toks[1], w)
+                   ELSE LET h == Len(toks) \div 2 IN TextOf(SubSeq(toks, 1, h), w) \o TextOf(SubSeq(toks, h + 1, Len(toks)), w)
 SP == <<32>>
 =============================================================================
